@@ -913,7 +913,7 @@ func SpecContains(s string, sub string) bool { return false }
 //@   properties C07 C17
 //@   replay syncer_SetRunId
 //@   requires nonnil: ro != nil
-//@   modifies heap, phase, curDb, cpDb, rootReads, rootOff, rootRun
+//@   modifies heap, phase, curDb, cpDb, rootReads, rootOff, rootRun, lastHashName, lastHashRun
 //@   ensures failed_attempt_keeps_the_previous_id: result != nil ==> ro.cfg.RunId == old(ro.cfg.RunId)
 //@   ensures successful_attempt_adopts_the_new_id: result == nil ==> ro.cfg.RunId == id
 
@@ -1028,3 +1028,19 @@ func SpecRdbBuffered(r *memoryRdb) int64 { panic("abstract spec function") }
 //@   ensures no_log_segment_goes_while_a_snapshot_is_on_offer [C16]: mc.rdb != nil && mc.rdb.replayable ==> len(mc.aofSegs) == old(len(mc.aofSegs))
 //@   loop 1:
 //@     invariant oldest_first: mc != nil && (old(mc.rdb == nil || !mc.rdb.replayable) ==> mc.rdb == nil || !mc.rdb.replayable) && (mc.rdb != nil && mc.rdb.replayable ==> len(mc.aofSegs) == old(len(mc.aofSegs)))
+
+// ---- start-up never relabels a stored position to another replication id (C06) -----------------
+// A position filed under the source's PREVIOUS id is valid under the current id only if the
+// source says so: a PSYNC under the previous id is checked against second_replid_offset, one
+// under the current id is not. At start-up nothing has been asked yet, so the checkpoint keeps
+// the id it is filed under (only its name may change); RedisOutput.SetRunId relabels it after
+// the source answered +CONTINUE.
+//@ func client.NewRedis(cfg) (cli, err)
+//@   trusted abstract target connection
+//@   ensures connected: err == nil ==> cli != nil
+//@ func syncer.updateCheckpoint$1
+//@   arith int
+//@   properties C06
+//@   replay syncer_rekeyPsync
+//@   modifies heap, curDb, cpDb, phase, replayFailed, rootReads, rootOff, rootRun, lastHashName, lastHashRun
+//@   assert at call UpdateCheckpoint: start_up_keeps_the_run_id_a_position_is_filed_under: len(arg2) >= 1 && (lastHashName == "" || arg2[0] == lastHashRun)
